@@ -11,7 +11,9 @@ import (
 	"testing"
 
 	"github.com/brutella/hc/characteristic"
+	hccrypto "github.com/brutella/hc/crypto"
 	"github.com/brutella/hc/db"
+	"github.com/brutella/hc/hap"
 	"pgregory.net/rapid"
 	"verifharness/fixture"
 	"verifharness/hx"
@@ -84,7 +86,7 @@ func newWorld(nctl int) (*world, error) {
 		d.SaveEntity(db.NewEntity(c.ID, c.LTPK, nil))
 		w.ctls = append(w.ctls, &ctl{id: c, subs: map[*chr]bool{}})
 	}
-	w.tb = fixture.NewTestBed("C10 Bridge", 0)
+	w.tb = fixture.NewTestBed("C10 Bridge", 2) // two identical switches: same iids on different accessories
 	acc, err := w.tb.Start(w.dir, "03145154", false)
 	if err != nil {
 		return nil, fmt.Errorf("INFRA: %v", err)
@@ -108,12 +110,15 @@ func newWorld(nctl int) (*world, error) {
 		w.chars = append(w.chars, &chr{name: name, aid: aid, ch: ch, ev: has("ev"), pw: has("pw"), values: vals, cur: ch.Value})
 	}
 	add("bulb.on", bulb.ID, bulb.Lightbulb.On.Characteristic, true, false)
-	add("bulb.brightness", bulb.ID, bulb.Lightbulb.Brightness.Characteristic, 0, 1, 50, 100)
+	add("bulb.brightness", bulb.ID, bulb.Lightbulb.Brightness.Characteristic, 0, 1, 50, 100, 100, 150, -5)
 	add("bulb.text", bulb.ID, w.tb.Text.Characteristic, "", "a", "b \"quoted\"", "ünï 😀")
 	add("bulb.blob(no-ev)", bulb.ID, w.tb.Blob.Characteristic, "AQID", "BAUG", "")
-	add("thermo.target", th.ID, th.Thermostat.TargetTemperature.Characteristic, 10.0, 20.5, 35.0, 21.0)
+	add("thermo.target", th.ID, th.Thermostat.TargetTemperature.Characteristic, 10.0, 20.5, 35.0, 21.0, 35.0, 50.0, 0.0)
 	add("thermo.current(read-only)", th.ID, th.Thermostat.CurrentTemperature.Characteristic, 11.0, 22.5, 30.0)
 	add("thermo.name(no-ev,read-only)", th.ID, th.Info.Name.Characteristic, "n1", "n2")
+	for i, sw := range w.tb.Switches {
+		add(fmt.Sprintf("switch%d.on", i), sw.ID, sw.Switch.On.Characteristic, true, false)
+	}
 	return w, nil
 }
 
@@ -220,7 +225,26 @@ func (w *world) subsOf(c *ctl) string {
 }
 
 // changed records the model effect of a value change made by originator (nil = the application).
+// effective is the value the characteristic holds after v was written: numbers are clamped to the declared bounds.
+func effective(ch *chr, v interface{}) interface{} {
+	f, ok := hx.Num(v)
+	if !ok {
+		return v
+	}
+	if mn, ok := hx.Num(ch.ch.MinValue); ok && f < mn {
+		return ch.ch.MinValue
+	}
+	if mx, ok := hx.Num(ch.ch.MaxValue); ok && f > mx {
+		return ch.ch.MaxValue
+	}
+	return v
+}
+
 func (w *world) changed(ch *chr, v interface{}, originator *ctl) {
+	if canon(effective(ch, v)) != canon(v) {
+		w.flags["write-beyond-bounds"] = true
+	}
+	v = effective(ch, v)
 	if canon(ch.cur) == canon(v) {
 		w.flags["same-value-update"] = true
 		return
@@ -238,6 +262,16 @@ func (w *world) changed(ch *chr, v interface{}, originator *ctl) {
 	}
 	if nsub >= 2 {
 		w.flags["change-with>=2-subscribers"] = true
+	}
+	// a change on one of two same-iid characteristics while somebody is subscribed to the twin only
+	for _, other := range w.chars {
+		if other != ch && other.ch.ID == ch.ch.ID && other.aid != ch.aid {
+			for _, c := range w.ctls {
+				if c.cl != nil && c.subs[other] && !c.subs[ch] {
+					w.flags["same-iid-on-two-accessories-asymmetric"] = true
+				}
+			}
+		}
 	}
 	if originator != nil && originator.subs[ch] {
 		w.flags["originator-subscribed"] = true
@@ -302,7 +336,8 @@ func TestC10Prop(t *testing.T) {
 				for i := 0; i < n; i++ {
 					ch := w.chars[rapid.IntRange(0, len(w.chars)-1).Draw(t, "char")]
 					if !ch.ev && rapid.Bool().Draw(t, "prefer-ev") {
-						ch = w.chars[rapid.IntRange(0, 2).Draw(t, "evchar")]
+						evs := []int{0, 1, 2, 7, 8} // on, brightness, text, switch0.on, switch1.on
+						ch = w.chars[evs[rapid.IntRange(0, len(evs)-1).Draw(t, "evchar")]]
 					}
 					dup := false
 					for _, x := range chosen {
@@ -476,4 +511,33 @@ func names(cs []*chr) string {
 		s = append(s, c.name)
 	}
 	return strings.Join(s, "+")
+}
+
+// TestC10Regress: deterministic form of the schedule-dependent finding KF-C10-1: a notification is
+// written to a connection whose session was just removed because the peer closed it.
+func TestC10Regress(t *testing.T) {
+	ctx, _, _ := fixture.SharedContext()
+	defer fixture.Cleanup()
+	conn := fixture.NewScriptConn(nil)
+	hcConn := hap.NewConnection(conn, ctx)
+	var secret [32]byte
+	sec, _ := hccrypto.NewSecureSessionFromSharedKey(secret)
+	ctx.GetSessionForConnection(conn).SetCryptographer(sec)
+	hcConn.Write([]byte("pending response"))
+	hcConn.Read(make([]byte, 1))
+	// the peer closes: the server goroutine removes the session; the notifier still holds the connection
+	ctx.DeleteSessionForConnection(conn)
+	var perr interface{}
+	func() {
+		defer func() { perr = recover() }()
+		hcConn.EncryptedWrite([]byte("EVENT/1.0 200 OK\r\n\r\n"))
+	}()
+	stats.Case(stats.Hash("regress-close-race"), true, []string{"regress"}, func() interface{} {
+		return "notification written to a connection whose session was removed by a concurrent close"
+	})
+	if perr != nil {
+		msg := fmt.Sprintf("writing a notification to a connection that is being closed panics: %v", perr)
+		stats.Fail("TestC10Regress", msg, nil)
+		t.Errorf("%s", msg)
+	}
 }
